@@ -361,7 +361,7 @@ def decide(ck, reqs, impl, model, cov):
 
 
 def run(ck):
-    n_arrays = 550 if ck.quick() else 12000
+    n_arrays = 1900 if ck.quick() else 36000
     # 1. translator
     rc, out = vlib.sh([sys.executable, os.path.join(vlib.VERIF, "translator", "gen_consts.py")])
     ck.log(out.strip())
